@@ -1847,12 +1847,13 @@ impl TypeLayout {
                 }
             }
             (lhs, rhs, BinaryXor | BinaryAnd | BinaryOr | BitwiseLs | BitwiseRs) => {
+                // same promotion as at run time: byte yields to the other operand, int yields to bigint
                 match (lhs, rhs) {
-                    (Int, Int | BigInt | Byte) => Int,
+                    (Int, Int | Byte) | (Byte, Int) => Int,
                     //======================
-                    (BigInt, BigInt | Int | Byte) => BigInt,
+                    (BigInt, BigInt | Int | Byte) | (Int | Byte, BigInt) => BigInt,
                     //======================
-                    (Byte, Byte | Int | BigInt) => Int,
+                    (Byte, Byte) => Byte,
                     _ => return None,
                 }
             }
